@@ -118,3 +118,26 @@ pub fn inventory(req: &Value) -> Value {
         json!({"result": inv.partial_resolve(qo, qa, &Req).map(|a| a.metadata.0)})
     }
 }
+
+/// C18 round trip: Inventory<String, Sha, Option<String>> rendered with Display (toml) and parsed back with FromStr
+pub fn inventory_roundtrip(req: &Value) -> Value {
+    let txt = |v: &Value| -> String { v.as_array().map(|a| a.iter().map(|c| char::from_u32(c.as_u64().unwrap() as u32).unwrap_or('?')).collect()).unwrap_or_default() };
+    let mut inv: Inventory<String, Sha, Option<String>> = Inventory::new();
+    for a in req["artifacts"].as_array().unwrap() {
+        let seed = a["seed"].as_u64().unwrap_or(0) as u8;
+        let cs = format!("sha256:{}", format!("{:02x}", seed.wrapping_mul(37).wrapping_add(11)).repeat(32)).parse::<Checksum<Sha>>().unwrap();
+        inv.push(Artifact {
+            version: txt(&a["version"]),
+            os: a["os"].as_str().unwrap().parse::<Os>().unwrap(),
+            arch: a["arch"].as_str().unwrap().parse::<Arch>().unwrap(),
+            url: txt(&a["url"]),
+            checksum: cs,
+            metadata: if a["metadata"].is_null() { None } else { Some(txt(&a["metadata"])) },
+        });
+    }
+    let text = inv.to_string();
+    match text.parse::<Inventory<String, Sha, Option<String>>>() {
+        Ok(back) => json!({"equal": back.artifacts == inv.artifacts, "text": text}),
+        Err(e) => json!({"equal": false, "text": text, "parse_error": e.to_string()}),
+    }
+}
